@@ -8,6 +8,7 @@ EXPLANATION = ('Value-flow normal forms and loop summaries of the ESS helper of 
                'P_k <= 0, running-minimum clamp, tau = -1 + 2 sum P_k, ESS = m h / tau; path switch at 100 rows; brute force: centred, (1/h) sum_{t<h-lag} x_t x_{t+lag}; '
                'FFT: centred, zero-padded to a power of two >= 2h-1 (loop summary of the doubling), |X|^2, inverse, real part, first h lags, scale 1/(n_padded h); '
                'lag-0 consistency of the normaliser with W. Equality of the two paths up to rounding (the convolution theorem) and the AR(1)/i.i.d. asymptotics are not decided.')
+FLOORS = {'obligations': 20}   # counted on the reference tree; fewer instantiated obligations is reported, never passed silently
 TECHNIQUE = 'value-flow normal form + loop summaries (exit conditions, carried minima, doubling loop) vs specification table'
 R3 = lambda s: {s: 3}
 
